@@ -9,7 +9,10 @@ Case (JSON-able dict):
   active : None | [a0, a1]   explicit active range of the root fiber (fiber mode, depth 0 only)
   arg    : step (uniform, equal), list of boundaries (nonuniform), list of sizes (unequal),
            number of partitions (truediv, floordiv)
-  pre, post : halo sizes;  rel : relativeCoords;  depth : split depth
+  pre, post : halo sizes;  rel : relativeCoords
+  depth  : the depth= argument;  rankid : None | index of the rank named by rankid= (tensor entry);
+           depth_kw : (with rankid) whether depth= is passed as well.  A rank id overrides the depth:
+           eff(case) is the rank that has to be split
   tensor : bool  -- split through Tensor.splitXXX (rank ids / shape bookkeeping observed too)
   resplit: None | [kind2, arg2, pre2, post2]  -- every partition of a depth-0 split is split again
   d == NONE_D : the leaf default is None ("no empty value"): stored zeros are ordinary non-empty
@@ -22,7 +25,9 @@ Case (JSON-able dict):
 
 Observation:
   fiber mode : X(depth, root)
-  tensor mode: [rank ids as [i] / [i,1] / [i,0], shape or [], leaf default, X(depth, root)]
+  tensor mode: [rank ids as [i] / [i,1] / [i,0] (index of the operand's rank + acquired suffixes),
+                shape or [], leaf default, X(eff, root),
+                [rank ids, shape] of a second split naming the new lower rank "<id>.0" (or [-1, code])]
   X(0, f)  = [[a0, a1] of the upper fiber, shape-or-[] of the upper fiber,
               [[part, lower raw tree, [lo, hi] of the lower fiber, its shape-or-[]] ...]]
              with resplit each "lower raw tree" is replaced by X(0, lower) under the second split
@@ -55,9 +60,27 @@ def _opt(x):
     return [] if x is None else [x]
 
 
-def _call_split(f, kind, arg, pre, post, rel, depth, rankid=None):
+def eff(case):
+    """the rank that is split: a rank id overrides the depth argument"""
+    r = case.get("rankid")
+    return case["depth"] if r is None else r
+
+
+def _ids(names, ids0):
+    out = []
+    for r in names:
+        parts = r.split(".")
+        out.append([ids0.index(parts[0])] + [int(x) for x in parts[1:]])
+    return out
+
+
+def _call_split(f, kind, arg, pre, post, rel, depth, rankid=None, depth_kw=True):
     kw = {}
-    if depth:
+    if rankid is not None:
+        kw["rankid"] = rankid
+        if depth_kw:
+            kw["depth"] = depth
+    elif depth:
         kw["depth"] = depth
     if kind == "uniform":
         return f.splitUniform(arg, relativeCoords=rel, pre_halo=pre, post_halo=post, **kw)
@@ -198,27 +221,30 @@ def run(case):
             if case["d"] == NONE_D:
                 T.setDefault(None)
             ids0 = T.getRankIds()
-            R = _call_split(T, kind, arg, pre, post, rel, depth)
-            ids = []
-            for r in R.getRankIds():
-                if r.endswith(".1") or r.endswith(".0"):
-                    ids.append([ids0.index(r[:-2]), int(r[-1])])
-                else:
-                    ids.append([ids0.index(r)])
+            e = eff(case)
+            rk = None if case.get("rankid") is None else ids0[case["rankid"]]
+            R = _call_split(T, kind, arg, pre, post, rel, depth, rk, case.get("depth_kw", True))
             sh = R.getShape()
             dflt = R.getDefault()
             from fibertree import Payload
             dflt = Payload.get(dflt)
             if dflt is None:
                 dflt = NONE_D
-            return [ids, [] if sh is None else list(sh), dflt, _obs_depth(R.getRoot(), depth, case["d"], case["tree"])]
+            try:
+                R2 = R.splitEqual(2, rankid=ids0[e] + ".0")
+                sh2 = R2.getShape()
+                second = [_ids(R2.getRankIds(), ids0), [] if sh2 is None else list(sh2)]
+            except Exception:
+                second = [-1, 9]
+            return [_ids(R.getRankIds(), ids0), [] if sh is None else list(sh), dflt,
+                    _obs_depth(R.getRoot(), e, case["d"], case["tree"]), second]
         f = build_root(case)
         before = U.snap(f)
         r = _call_split(f, kind, arg, pre, post, rel, depth)
         assert U.snap(f) == before
         if depth == 0:
             return _obs_split(r, case.get("resplit"))
-        return _obs_depth(r, depth, case["d"], case["tree"])
+        return _obs_depth(r, depth, case["d"], case["tree"])   # fiber mode: no rank ids, eff = depth
     except AssertionError:
         return [-1, 1]
     except ValueError:
